@@ -1096,7 +1096,7 @@ class MinHash(RustObject):
 
             abund_mh = from_mh.copy_and_clear()
 
-            abund_mh.downsample(scaled=self.scaled)
+            abund_mh = abund_mh.downsample(scaled=self.scaled)
             abund_mh.set_abundances(abunds)
 
             return abund_mh
